@@ -492,6 +492,11 @@ class WsgiApplication(HttpBase):
 
             self.get_out_string(p_ctx)
 
+            if not self.chunked:
+                # out_string can be lazy. as it's going to be consumed before
+                # start_response anyway, do it where failures are handled.
+                p_ctx.out_string = [b''.join(p_ctx.out_string)]
+
         except Exception as e:
             logger.exception(e)
             if not isinstance(e, Fault):
@@ -500,6 +505,7 @@ class WsgiApplication(HttpBase):
             # discard whatever the failed serialization has left behind
             # otherwise it'd be sent instead of the fault document
             p_ctx.out_document = None
+            p_ctx.out_string = None
 
             p_ctx.out_error = e
             p_ctx.fire_event('method_exception_object')
